@@ -125,6 +125,8 @@ func didGenesisRules(p *Prog, r *Report, m *didModel, clause string) {
 
 // checkUnconditionalLoopEffect: fn has exactly one loop; every instruction satisfying isEffect inside it sits in a block that
 // is executed on every iteration (it dominates the loop's back edge source), i.e. there is no `if ... continue` around it.
+var depthOfLoopDelegation int
+
 func checkUnconditionalLoopEffect(p *Prog, r *Report, key string, fn *ssa.Function, isEffect func(ssa.Instruction) bool, rule string) {
 	var effects []ssa.Instruction
 	for _, b := range fn.Blocks {
@@ -135,6 +137,32 @@ func checkUnconditionalLoopEffect(p *Prog, r *Report, key string, fn *ssa.Functi
 		}
 	}
 	if len(effects) == 0 {
+		// the loop may have moved into a (possibly generic) iteration helper of the module: check it there
+		if depthOfLoopDelegation < 2 {
+			for _, cs := range callSites(fn) {
+				g := cs.Callee
+				if g == nil || !InModule(g) || p.IsGenerated(g) || g.Blocks == nil || g == fn {
+					continue
+				}
+				hasLoop, hasEffect := false, false
+				for _, b := range g.Blocks {
+					if inCycle(b) {
+						hasLoop = true
+					}
+					for _, in := range b.Instrs {
+						if isEffect(in) {
+							hasEffect = true
+						}
+					}
+				}
+				if hasLoop && hasEffect {
+					depthOfLoopDelegation++
+					checkUnconditionalLoopEffect(p, r, key, g, isEffect, rule)
+					depthOfLoopDelegation--
+					return
+				}
+			}
+		}
 		r.Fail(key, rule, p.FnPos(fn), "the expected effect is not present in "+FuncName(fn))
 		return
 	}
